@@ -23,6 +23,7 @@ RULE = ("clique equation tau = 2..6 (quick) / 2..7 (thorough) with distinct symb
         "[-1, C(n,2)+1]; QQ(n,k) for n <= 5 (quick) / 6 (thorough); number_of_connected_graphs on random substrates with <= 7 vertices, random "
         "vertex subsets containing the focal vertex, all k; non-trivial = tau >= 3 / n >= 4 / n >= 3 / induced subgraph with a cycle; "
         "distinct = SHA-1 of the concrete arguments")
+RULE += '; round m: substrates with self-loops (25%), vertex lists taken from the neighbour iterator (so that they contain the focal vertex when it has a self-loop)'
 ASSUMPTIONS = ["polynomial identity after full expansion", "connected labelled graph counts from the recurrence C_n(y) = (1+y)^C(n,2) - sum_j C(n-1,j-1) C_j(y) (1+y)^C(n-j,2)"]
 HEADLINE = ["clique_identities", "cycle_identities", "float_checks", "Q_values", "QQ_values", "counter_checks", "sweep_substrates", "sweep_counter_checks", "oeis_anchor", "shadow_unsupported", "special_point_checks"]
 REQUIRED = {t: {"clique_identities_or_numeric": 4, "cycle_identities_or_numeric": 8, "Q_values": 150, "QQ_values": 20, "counter_checks": 200, "oeis_anchor": 1,
